@@ -123,6 +123,11 @@ def stale_accepts(an):
     return out
 
 
+def gone_before(c):
+    """the connecting socket was closed / cancelled / destroyed / re-used before its connect completed"""
+    return c.disturbed or (c.end_pos is not None and (c.result is None or c.end_pos < c.result[2]))
+
+
 def _check(impl, scn_text, an=None):
     an = an or analyse(impl, scn_text)
     F = []
@@ -141,17 +146,17 @@ def _check(impl, scn_text, an=None):
             if ec == "ok":
                 F.append(("c07-connect-not-listening", "%s.connect %s succeeded at t=%d although no open acceptor was bound to that endpoint and listening when connect was called (t=%d)" % (c.sock, fmt_ep(c.dialled), c.result[1], c.t)))
             elif ec is None:
-                if an.quiescent and not c.disturbed and c.end_pos is None and not c.fam_mismatch:
+                if an.quiescent and not gone_before(c) and not c.fam_mismatch:
                     F.append(("c07-refusal-missing", "%s.connect %s (called at t=%d; nobody listening there) never completed" % (c.sock, fmt_ep(c.dialled), c.t)))
             elif ec == "refused":
                 pass
-            elif ec == "aborted" and (c.disturbed or c.end_pos is not None):
+            elif ec == "aborted" and gone_before(c):
                 pass
             elif ec == "af_no_support" and c.fam_mismatch:
                 pass
             else:
                 F.append(("c07-refusal-error", "%s.connect %s (nobody listening) completed with %s, expected connection_refused" % (c.sock, fmt_ep(c.dialled), ec)))
-        if ec == "refused" and c.result[1] <= c.t and not c.disturbed:
+        if ec == "refused" and c.result[1] <= c.t and not gone_before(c):
             F.append(("c07-refusal-delay", "%s.connect %s called at t=%d was refused at t=%d: no positive delay" % (c.sock, fmt_ep(c.dialled), c.t, c.result[1])))
     for (inc, what, val, pos) in an.refusal_queries:
         if what == "remote" and parse_ep(val) is not None:
@@ -231,9 +236,10 @@ def _check(impl, scn_text, an=None):
                 F.append(("c07-accept-peer", "%s (accepted by %s, handler %s): remote endpoint reads %s; the connector %s is bound to %s, seen through its route as %s" % (
                     inc.sock, comp.acc.name, comp.op.h, fmt_ep(e), c.sock if c else "?", fmt_ep(c.local_known) if c and c.local_known else "?", fmt_ep(exp_peer))))
                 break
+        misuse = any(arr.pos < p < comp.pos for p in an.reopened.get(comp.acc.name, []))
         for (pos, ctx, val) in inc.locals:
             e = parse_ep(val)
-            if e is not None and exp_local is not None and e != exp_local:
+            if e is not None and exp_local is not None and e != exp_local and not misuse:
                 F.append(("c07-accepted-local", "%s (accepted by %s, handler %s): local endpoint reads %s, the connector dialled %s" % (inc.sock, comp.acc.name, comp.op.h, val, fmt_ep(exp_local))))
                 break
         for (what, lst) in (("local", inc.locals), ("remote", inc.remotes)):
